@@ -105,4 +105,42 @@ PROPS = {
         "explanation": "Measurement(...) takes |uncertainty|; * / and ** are proved against sigma_f^2 = sum((df/dx_i sigma_i)^2) written out per operator (non-linear real "
                        "arithmetic), for measurement or plain quantity on the right, including zero measurands and every integer exponent.",
     },
+    "C18": {
+        "level": "proof",
+        "trusted": ["math.log / ** over the reals with the axioms: log strictly increasing, log x > 0 for x > 1, b**0 = 1, b**e > 0 for b > 0 (A4)",
+                    "conversions.convert (as in C06)", "round trips level<->quantity and Level.__eq__: bounded stand-in only (needs exp/log inverse reasoning)",
+                    "LogarithmicUnit construction (interning keyed by (logarithm, reference)): not under contract"],
+        "explanation": "LogarithmicUnit.level is proved to return (k/prefix) * log_base(quantity/reference) with k from the root-power set, Level.quantify its "
+                       "exponential counterpart, and the lemma level_monotone (strictly increasing) is proved from the contract and the monotonicity of log.",
+    },
+    "C13": {
+        "level": "other", "manifest_level": "other",
+        "trusted": ["the generated LALR parser builds the tree the grammar assigns to the text (A10)"],
+        "explanation": "Ground evaluation over the finite registry (every unit x every registered prefix, exponents, products, quantities, alternative spellings) of "
+                       "the real str()/parse() pair; no contract is proved (string construction by generator expressions over characters and the LALR driver are "
+                       "outside the engine). Recorded findings: seven symbol collisions (each with its own key, so a new collision is reported) and non-renderable prefixes.",
+    },
+    "C15": {
+        "level": "other", "manifest_level": "other",
+        "trusted": ["pickle/copy call cls.__new__(cls, *args, **kwargs) with __getnewargs_ex__ and restore slots (A10)", "json applies object_hook bottom-up (A10)"],
+        "explanation": "Re-entry of __getnewargs_ex__/__from_json__ into the interning constructors is covered by the constructor contracts of C01/C02 (same key => same "
+                       "object); the round trips themselves are checked natively over every registered dimension, prefix and unit and random compounds/quantities x 4 codecs. "
+                       "JSON of quantities inherits the C13 rendering findings.",
+    },
+    "C17": {
+        "level": "other", "manifest_level": "other",
+        "trusted": ["the generated LALR driver raises only LarkError subclasses (A10)"],
+        "explanation": "Frame part by contract: Unit.alias(None, None) and the constructor contracts show that building anonymous units never writes the name/symbol "
+                       "registries; totality, determinism and registry snapshots are checked natively over edge inputs (5000-digit numbers, NUL, unicode digits, 100k characters), "
+                       "grammar-generated strings, token mutations and random text.",
+    },
+    "C20": {
+        "level": "proof", "manifest_level": "other",
+        "static": [static.c20_locks, static.memo_args],
+        "trusted": ["threading.RLock provides mutual exclusion; dict and lru_cache operations are atomic enough under the GIL (A10)",
+                    "double initialisation of one fresh object by two threads writes identical values (outside the statement)"],
+        "explanation": "Lock discipline (static, closed obligations): in each interning __new__ the registry test, the allocation and the insertion lie in one critical section "
+                       "of a module-level lock, nothing else inserts into the registries; inside the section the sequential constructor contracts (C02) apply, so all threads "
+                       "obtain the registered object. A deterministic line-granularity scheduler replays every one-preemption schedule of two threads natively.",
+    },
 }
